@@ -118,6 +118,7 @@ func (t *TypeAliasType) IsAssignable(o px.Type, g px.Guard) bool {
 	if g.Seen(t, o) {
 		return true
 	}
+	defer g.Done(t, o)
 	return GuardedIsAssignable(t.ResolvedType(), o, g)
 }
 
@@ -128,6 +129,7 @@ func (t *TypeAliasType) IsInstance(o px.Value, g px.Guard) bool {
 	if g.Seen(t, o) {
 		return true
 	}
+	defer g.Done(t, o)
 	return GuardedIsInstance(t.ResolvedType(), o, g)
 }
 
